@@ -46,6 +46,9 @@ refactoring introduces, so that every rule sees one form:
       by keyword: f(x, 3, 'deg') and f(x, dim=3, unit='deg') are one call
   N20 if c: return A; <rest>            ->    if c: return A else: <rest>        (the arm always returns; raising guards stay flat)
   N21 else: (if c: raise E); <rest>     ->    elif not c: <rest> else: raise E   (a chain gets its final `else: raise` back)
+  N22 type(x)                            ->    x.__class__
+  N23 isinstance(x, A) or isinstance(x, B) ->  isinstance(x, (A, B))
+  N24 if a: (if b: X)                    ->    if a and b: X        (neither has an else)
   N19 in the test of if / while / assert negations are pushed inwards: not a == b -> a != b, not (a or b) -> not a and not b
   N17 `pass` next to other statements is dropped (an `else: pass; if ..` is the elif it was)
   N4  negated disjunction / conjunction in a test position is left to the fact splitter (cfg._split handles polarity)
@@ -136,6 +139,13 @@ class _Normalise(ast.NodeTransformer):
     def visit_If(self, st):
         self.generic_visit(st)
         from .boolfold import _push_not
+        # N24  if a: (if b: X)   ->   if a and b: X      (neither has an else)
+        if not st.orelse and len(st.body) == 1 and isinstance(st.body[0], ast.If) and not st.body[0].orelse:
+            inner = st.body[0]
+            st.test = ast.BoolOp(op=ast.And(), values=[st.test, inner.test])
+            ast.copy_location(st.test, st)
+            ast.fix_missing_locations(st.test)
+            st.body = inner.body
         if isinstance(st.test, ast.UnaryOp) and isinstance(st.test.op, ast.Not) and st.orelse and \
                 not (len(st.body) == 1 and isinstance(st.body[0], ast.If)):
             chain = len(st.orelse) == 1 and isinstance(st.orelse[0], ast.If)
@@ -197,11 +207,41 @@ class _Normalise(ast.NodeTransformer):
             return node
         return n
 
+    # ---- N23  isinstance(x, A) or isinstance(x, B)  ->  isinstance(x, (A, B))
+    def visit_BoolOp(self, n):
+        self.generic_visit(n)
+        if isinstance(n.op, ast.Or):
+            out = []
+            for v in n.values:
+                prev = out[-1] if out else None
+
+                def isi(c):
+                    return isinstance(c, ast.Call) and isinstance(c.func, ast.Name) and c.func.id == 'isinstance' and len(c.args) == 2 and not c.keywords \
+                        and isinstance(c.args[0], (ast.Name, ast.Attribute))
+                if prev is not None and isi(prev) and isi(v) and ast.dump(prev.args[0]) == ast.dump(v.args[0]):
+                    a = list(prev.args[1].elts) if isinstance(prev.args[1], ast.Tuple) else [prev.args[1]]
+                    b = list(v.args[1].elts) if isinstance(v.args[1], ast.Tuple) else [v.args[1]]
+                    merged = ast.Call(func=prev.func, args=[prev.args[0], ast.Tuple(elts=a + b, ctx=ast.Load())], keywords=[])
+                    ast.copy_location(merged, prev)
+                    ast.fix_missing_locations(merged)
+                    out[-1] = merged
+                else:
+                    out.append(v)
+            if len(out) == 1:
+                return out[0]
+            n.values = out
+        return n
+
     # ---- N3
     def visit_Call(self, n):
         self.generic_visit(n)
         fn = n.func
         name = fn.attr if isinstance(fn, ast.Attribute) else (fn.id if isinstance(fn, ast.Name) else None)
+        # N22  type(x)  ->  x.__class__
+        if name == 'type' and isinstance(fn, ast.Name) and len(n.args) == 1 and not n.keywords and isinstance(n.args[0], ast.Name):
+            node = ast.Attribute(value=n.args[0], attr='__class__', ctx=ast.Load())
+            ast.copy_location(node, n)
+            return node
         if name == 'matmul' and len(n.args) == 2 and not n.keywords and not any(isinstance(a, ast.Starred) for a in n.args):
             node = ast.BinOp(left=n.args[0], op=ast.MatMult(), right=n.args[1])
             ast.copy_location(node, n)
